@@ -150,10 +150,21 @@ def oracle_c06(line, itoks):
     arrivals = {}            # (session, mid) -> a reply of the peer (ACK / RST / response with its token) is ever delivered
     last_arrival = 0
     nfate = 0
+    # "… until an ACK or RST carrying its message id arrives from that peer": (session, mid) -> (time, what) of the first
+    # ACK (empty, piggy-backed response, or - fate q / event q: - an ACK with a request code: whatever it carries) or RST
+    # with the message id of a Confirmable that had been transmitted; any transmission of it STRICTLY later is a violation
+    # (at the same instant the timers may have run first).  Not judged on lines with `h` (a session that is not
+    # established parks its retransmissions in the delay queue, where coap_remove_from_queue() does not look).
+    ended_at = {}
+    ended_ev = {}
     for ev, ts, dump in steps:
         f = ev.split(":")
         if f[0] in ("s", "S") and f[2] == "c" and any(SUB.match(t) and t != "sub=rej" for t in ts):
             accepted.append((int(f[1]), int(f[3])))
+        if f[0] in ("a", "r", "b", "q", "p") and len(f) >= 3 and (int(f[1]), int(f[2])) in txs and (int(f[1]), int(f[2])) not in ended_ev:
+            # delivered by this very event: every token of this step comes after the injection
+            ended_ev[(int(f[1]), int(f[2]))] = {"a": "an ACK", "r": "a RST", "b": "an ACK (invalid code class)", "p": "an ACK (piggy-backed response)",
+                                                "q": "an ACK (with the request code 0.%02d)" % (int(f[3]) if f[0] == "q" and len(f) > 3 else 0)}[f[0]]
         for t in ts:
             m = TX.match(t) or TXF.match(t)
             if m:
@@ -161,15 +172,26 @@ def oracle_c06(line, itoks):
                 # the scripted peer: the k-th datagram handed to the socket meets the k-th fate
                 fate = fates[nfate] if nfate < len(fates) else "d"
                 nfate += 1
-                if fate[0] in "aArRpP" and not (fate[0] in "aApP" and kind != "C") and not t.startswith("txf@"):
+                if fate[0] in "aArRpPqQ" and not (fate[0] in "aApPqQ" and kind != "C") and not t.startswith("txf@"):
                     for d in fate[1:].split("+"):
                         arrivals[(s, mid)] = True
                         last_arrival = max(last_arrival, tm + int(d))
+                        if kind == "C" and ((s, mid) not in ended_at or tm + int(d) < ended_at[(s, mid)][0]):
+                            ended_at[(s, mid)] = (tm + int(d), {"a": "an ACK", "r": "a RST", "p": "an ACK (piggy-backed response)",
+                                                                "q": "an ACK (with a request code)"}[fate[0].lower()])
                 if same != "=":
                     return "retransmission of message %d on session %d is not byte-identical to its first transmission" % (mid, s)
                 if kind == "C" and subs.get((s, mid), 0) == 1:
                     if (s, mid) in outcome:
                         return "message %d of session %d is transmitted at t=%d after its outcome (%s)" % (mid, s, tm, outcome[(s, mid)])
+                    if not held_evs and (s, mid) in ended_at and tm > ended_at[(s, mid)][0]:
+                        return ("message %d of session %d is transmitted again at t=%d although %s carrying its message id arrived at "
+                                "t=%d: a Confirmable is retransmitted only UNTIL an ACK or RST with its message id arrives" % (
+                                    mid, s, tm, ended_at[(s, mid)][1], ended_at[(s, mid)][0]))
+                    if not held_evs and (s, mid) in ended_ev:
+                        return ("message %d of session %d is transmitted again at t=%d although %s carrying its message id had arrived "
+                                "(event): a Confirmable is retransmitted only UNTIL an ACK or RST with its message id arrives" % (
+                                    mid, s, tm, ended_ev[(s, mid)]))
                     txs.setdefault((s, mid), []).append(tm)
                 continue
             m = NACK.match(t)
@@ -180,6 +202,9 @@ def oracle_c06(line, itoks):
                 if (s, mid) in outcome and not (reason == "undeliv" and outcome[(s, mid)] == "undeliv"):
                     return "message %d of session %d gets a second outcome: %s after %s" % (mid, s, reason, outcome[(s, mid)])
                 outcome[(s, mid)] = reason
+                if reason == "retries" and not held_evs and (s, mid) in ended_at and int(m.group(2)) > ended_at[(s, mid)][0]:
+                    return ("TOO_MANY_RETRIES for message %d of session %d at t=%s although %s carrying its message id arrived at t=%d" % (
+                        mid, s, m.group(2), ended_at[(s, mid)][1], ended_at[(s, mid)][0]))
                 if reason == "retries":
                     n = len(txs.get((s, mid), []))
                     if s < len(sess) and n != sess[s][4] + 1 and not held_evs:
@@ -238,7 +263,7 @@ def c06_end_of_run(sess, evs, steps, accepted, arrivals, last_arrival, subs, txs
             tok[(int(f[1]), int(f[3]))] = int(f[5])
     for x in evs:
         f = x.split(":")
-        if f[0] in ("a", "r", "b", "p"):
+        if f[0] in ("a", "r", "b", "p", "q"):
             arrivals[(int(f[1]), int(f[2]))] = True
         elif f[0] == "o":
             for (s, mid), tk in tok.items():
